@@ -33,8 +33,21 @@ def _case(draw):
     full = draw(st.booleans())
     gopher_ok = draw(st.sampled_from([True, True, True, False]))
     vsep = draw(st.sampled_from([False, False, False, False, True]))
-    site = draw(sites.site(full=full, gopher_ok=gopher_ok, depth=3, max_items=4, virtual_seps=vsep))
-    return {"full": full, "gopher_ok": gopher_ok, "vsep": vsep, "site": site,
+    longn = draw(st.sampled_from([False, False, False, False, True]))
+    if longn:
+        # a chain of nested directories with long names: request lines of 1-4 KB (selectors stay below PATH_MAX)
+        site = None
+        unit = draw(st.sampled_from(["a", "b9", "\xe9", "x y", "\xc3\xa9", "%"]))
+        for lvl in range(draw(st.integers(3, 6))):
+            n = draw(st.integers(60, 230 // len(unit)))
+            inner = [["leaf%d.txt" % lvl, {"kind": "txt", "content": "leaf %d\n" % lvl}]]
+            if site is not None:
+                inner.append(site)
+            site = [unit * n + str(lvl), {"kind": "dir", "items": inner}]
+        site = [site, ["top.txt", {"kind": "txt", "content": "top\n"}]]
+    else:
+        site = draw(sites.site(full=full, gopher_ok=gopher_ok, depth=3, max_items=4, virtual_seps=vsep))
+    return {"full": full, "gopher_ok": gopher_ok, "vsep": vsep, "site": site, "long": longn,
             "cache": draw(st.booleans()), "forms": draw(st.integers(0, len(CRAWL_FORMS) - 1))}
 
 
@@ -137,6 +150,8 @@ def check_case(case, ctx):
         vprob = case["vsep"] and _has_vsep_problem(items)
         want = {world.b(o["sel"]): o for o in objs}
         fails = []
+        if case.get("long"):
+            ctx.label("long-names", "longest-selector:%s" % ("<=1024" if max([len(o["sel"]) for o in objs] + [0]) <= 1024 else ">1024"))
         ctx.label("full" if full else "shipped", "cache:%s" % case["cache"], "gopher_ok:%s" % case["gopher_ok"],
                   "vsep-flavour" if case["vsep"] else "plain-flavour")
         for form in forms:
